@@ -75,12 +75,15 @@ pub const OTHER: u64 = 0x8B;
 pub const OX: u64 = 0x8C;
 pub const LONG: u64 = 0x4286;
 pub const DEEP: u64 = 0x8D;
+pub const WIDE3: u64 = 0x210301;
+pub const WIDE4: u64 = 0x1C53BB6B;
 pub const VOID: u64 = 0xEC;
 pub const CRC: u64 = 0xBF;
 
 /// The document specification used by the writer / iterator units.
 ///   Root(81):M   Root/UInt(82) Root/Int(83) Root/Str(84) Root/Bin(85) Root/Flt(86) Root/Long(4286):U
 ///   Root/Parent(87):M  Root/Parent/Child(88):U  Root/Parent/Sub(89):M  Root/Parent/Sub/Leaf(8A):U
+///   Root/Wide3(210301):U  Other/Wide4(1C53BB6B):B   (3- and 4-byte ids)
 ///   Other(8B):M  Other/X(8C):U     Root/\(1-2\)Deep(8D):U   Void(EC), Crc32(BF) global
 pub fn doc_table() -> Table {
     use PathPart::{Global, Id};
@@ -100,6 +103,8 @@ pub fn doc_table() -> Table {
         e(LEAF, UnsignedInt, vec![Id(ROOT), Id(PARENT), Id(SUB)]),
         e(OTHER, Master, vec![]),
         e(OX, UnsignedInt, vec![Id(OTHER)]),
+        e(WIDE3, UnsignedInt, vec![Id(ROOT)]),
+        e(WIDE4, Binary, vec![Id(OTHER)]),
         e(DEEP, UnsignedInt, vec![Id(ROOT), Global((Some(1), Some(2)))]),
         e(VOID, Binary, vec![Global((None, None))]),
         e(CRC, Binary, vec![Global((Some(1), None))]),
